@@ -603,6 +603,60 @@ func partC(r *vk.Run) int64 {
 	return n
 }
 
+// partD: every message type the dispatchers hand out - whatever codes they know, found by asking
+// them, not taken from the reference table - decodes only datagrams that carry its own function
+// code and the protocol id: the type returned for code c, decoded directly through the codec from a
+// 64-byte datagram with any other code (or another protocol id), must fail.
+func partD(r *vk.Run) int64 {
+	var n int64
+	for kind, dispatch := range map[string]func([]byte) (any, error){
+		"request": func(b []byte) (any, error) { return messages.UnmarshalRequest(b) },
+		"reply":   func(b []byte) (any, error) { return messages.UnmarshalResponse(b) },
+	} {
+		for code := 0; code < 256; code++ {
+			b := make([]byte, 64)
+			b[0], b[1] = 0x17, byte(code)
+			copy(b[4:], []byte{0x78, 0x37, 0x2a, 0x18})
+			var got any
+			var err error
+			if p, _, _ := vk.Guard(func() { got, err = dispatch(b) }); p || err != nil || got == nil {
+				continue // unknown to the dispatcher (judged in part C)
+			}
+			t := reflect.TypeOf(got)
+			for t.Kind() == reflect.Ptr {
+				t = t.Elem()
+			}
+			if t.Kind() != reflect.Struct {
+				continue
+			}
+			for other := 0; other < 256; other++ {
+				for _, som := range []byte{0x17, 0x19, 0x00} {
+					if other == code && (som == 0x17 || (som == 0x19 && code == 0x20)) {
+						continue
+					}
+					d := append([]byte{}, b...)
+					d[0], d[1] = som, byte(other)
+					v := reflect.New(t)
+					var uerr error
+					n++
+					if p, msg, frame := vk.Guard(func() { uerr = codec.Unmarshal(d, v.Interface()) }); p {
+						r.Violation("C05/dispatcher/panic/"+frame, msg, "bytes", map[string]any{"bytes": vk.Hex(d), "type": t.String()})
+						continue
+					}
+					if uerr == nil {
+						why := "another-function-code"
+						if other == code {
+							why = "wrong-protocol-id"
+						}
+						r.Violation("C05/message-type/decodes-"+why+"-"+kind, fmt.Sprintf("%s (the %s type for function code %02x) decodes a datagram with protocol id %02x and function code %02x", t, kind, code, som, other), "bytes", map[string]any{"bytes": vk.Hex(d), "type": t.String()})
+					}
+				}
+			}
+		}
+	}
+	return n
+}
+
 func quickZones(all []string) []string {
 	pick := map[string]bool{}
 	for _, z := range []string{"UTC", "Etc/GMT-14", "Etc/GMT+12", "Europe/London", "Europe/Berlin", "America/New_York", "America/Los_Angeles", "America/Santiago", "America/Havana", "America/Sao_Paulo",
@@ -650,8 +704,10 @@ func main() {
 	distinct += partA(r, "UTC", false)
 	nb := partB(r)
 	nc := partC(r)
-	r.Count(nb + nc)
-	distinct += nb + nc
+	nd := partD(r)
+	r.Count(nb + nc + nd)
+	distinct += nb + nc + nd
+	r.Add("message_type_header_cases", nd)
 	r.Add("unused_byte_cases", nb)
 	r.Add("dispatcher_cases", nc)
 
@@ -705,7 +761,7 @@ func main() {
 	r.Distinct(distinct)
 	r.Sample(map[string]any{"type": "PutCardRequest", "fields": "CardNumber=0x01020304 From=2024-02-29 To=9999-12-31 Door1..4 PIN=999999", "check": "Unmarshal(Marshal(v)) == v, UnmarshalAs likewise"})
 	r.Sample(map[string]any{"type": "GetTimeResponse", "zone": "Asia/Tehran", "fields": "DateTime=<zero>", "check": "decodes back to the zero value"})
-	r.Rule("(A) 65 message struct types: baseline + all-zero value + every field over its in-domain alphabet (all uint8, all 1441 HH:mm, 15 civil dates incl. the zero value, date-times incl. zero, ...) + all field pairs over boundary alphabets + every ordered pair of boundary values of one field as two consecutive round trips, through Unmarshal and UnmarshalAs, every decode from one reused 64-byte input buffer that is overwritten afterwards; date-bearing types repeated in every listed zone; (B) every uncovered byte x 255 values for 32 request + 31 reply layouts through the dispatchers; (C) 256 codes x 4 protocol ids x lengths 0..128 (all lengths for 16 codes, stride otherwise) through both dispatchers. distinct = cases generated (each a distinct value/byte string)")
+	r.Rule("(A) 65 message struct types: baseline + all-zero value + every field over its in-domain alphabet (all uint8, all 1441 HH:mm, 15 civil dates incl. the zero value, date-times incl. zero, ...) + all field pairs over boundary alphabets + every ordered pair of boundary values of one field as two consecutive round trips, through Unmarshal and UnmarshalAs, every decode from one reused 64-byte input buffer that is overwritten afterwards; date-bearing types repeated in every listed zone; (B) every uncovered byte x 255 values for 32 request + 31 reply layouts through the dispatchers; (C) 256 codes x 4 protocol ids x lengths 0..128 (all lengths for 16 codes, stride otherwise) through both dispatchers; (D) every message type either dispatcher returns for any of the 256 codes, decoded directly from datagrams carrying each of the 255 other codes and 3 protocol ids: must fail. distinct = cases generated (each a distinct value/byte string)")
 	r.Assume("which bytes belong to a field comes from the hand-written layouts in spec/protocol.go")
 	r.Assume("in-domain date-times are civil times that exist in the process zone (constructed with time.Date in that zone)")
 	r.Finish()
